@@ -53,36 +53,15 @@ Proof.
   destruct (IH (Some (fst r))) as [tl Et]. rewrite Et. cbn [bind]. eexists. reflexivity.
 Qed.
 
-(* the wrap loop for any size: it returns, or it is the modelled non-termination *)
-Lemma btw_loop_cases fuel : forall size words done cur,
-  (length (concat words) + length words < fuel)%nat ->
-  (exists ls, btw_loop fuel size words done cur = Ok ls) \/ btw_loop fuel size words done cur = Raise OtherError.
-Proof.
-  induction fuel as [|f IH]; intros size words done cur Hm; [lia|].
-  cbn [btw_loop]. destruct words as [|word0 rest]; [left; eexists; reflexivity|].
-  cbn [concat length] in Hm. rewrite app_length in Hm.
-  destruct (size <? blen word0) eqn:Es.
-  - pose proof (take_bytes_app size word0) as Happ.
-    destruct (take_bytes size word0) as [word after]. cbn [fst snd] in Happ.
-    destruct word as [|w0 word']; [right; reflexivity|]. cbn [andb].
-    assert (Hlen : (length after < length word0)%nat).
-    { rewrite <- Happ. rewrite app_length. cbn [length]. lia. }
-    destruct (blen cur + blen (w0 :: word') <=? size); apply IH;
-      cbn [concat length]; rewrite app_length; lia.
-  - cbn [andb]. destruct (blen cur + blen word0 <=? size); apply IH; lia.
-Qed.
-
-Theorem wrap_raises_only : forall s n e, wrap s n = Raise e -> e = UnicodeError \/ e = OtherError.
+(* since byteTextWrap always makes progress the loop returns for any size: wrap can only fail by str.encode *)
+Theorem wrap_raises_only : forall s n e, wrap s n = Raise e -> e = UnicodeError.
 Proof.
   intros s n e H. unfold wrap, wrap_w in H.
   destruct (parse_total s) as [pm E]. rewrite E in H. cbn [bind] in H.
-  unfold byteTextWrap in H. destruct (existsb has_surrogate (split_chunks s)).
-  - cbn [bind] in H. injection H as <-. left. reflexivity.
-  - destruct (btw_loop_cases (btw_fuel (split_chunks s)) (Z.to_N (n - Z.of_N (snd pm))) (split_chunks s) [] [])
-      as [[ls El]|Er].
-    + unfold btw_fuel. apply Nat.lt_succ_diag_r.
-    + rewrite El in H. cbn [bind] in H. destruct (process_total ls None) as [r Ep]. rewrite Ep in H. discriminate.
-    + rewrite Er in H. cbn [bind] in H. injection H as <-. right. reflexivity.
+  destruct (existsb has_surrogate (split_chunks s)) eqn:Es.
+  - unfold byteTextWrap in H. rewrite Es in H. cbn [bind] in H. injection H as <-. reflexivity.
+  - destruct (wrap_total (split_chunks s) (n - Z.of_N (snd pm)) Es) as [ls El].
+    rewrite El in H. cbn [bind] in H. destruct (process_total ls None) as [r Ep]. rewrite Ep in H. discriminate.
 Qed.
 
 (* the old F40 witness: \x03 followed by superscript two is now ordinary text *)
